@@ -421,4 +421,20 @@ Example example_fixed_mouse_and_move :
   let m := v_move (fst (xview example_fixed)) fixed_size 6 0 in
   m_ok m = true /\ m_asked m = Some (1, 2, 0, (4, None)) /\ v_cursor (fst (xview (m_w m))) fixed_size = CSome 6 0.
 Proof. vm_compute. auto. Qed.
+(* regression: the witness of extension round 2 against Padding rendered as a fixed widget with a GIVEN width (render
+   handed (width,) to the child, the other methods ()): repaired by fix ba33666 - all methods hand (width,) - and
+   modelled so; a Padding with a given width counts as a tree with fixed parts now ([sized_tree]) *)
+Definition padding_given_fixed : widget :=
+  Columns [(CPack, false, Padding (lf 0 1 (Some (3, 0))) GLeft 0 GGiven 5 None 2 0);
+           (CPack, false, Padding (Leaf (LeafD 1 false 1 0 false false None [] 1 0)) GLeft 0 GGiven 2 None 0 0)] 0 0 1.
+
+Example padding_given_fixed_repaired :
+  sized_tree padding_given_fixed = false /\ v_fits (fst (xview padding_given_fixed)) fixed_size = true /\
+  x_pack (snd (xview padding_given_fixed)) = (9, 1) /\
+  v_cursor (fst (xview padding_given_fixed)) fixed_size = CSome 5 0 /\
+  v_rcursor (fst (xview padding_given_fixed)) fixed_size true = Some (5, 0) /\
+  v_mouse (fst (xview padding_given_fixed)) fixed_size 3 0 true = Some (Hit 0 1 0 true (5, None)) /\
+  let m := v_move (fst (xview padding_given_fixed)) fixed_size 4 0 in
+  m_ok m = true /\ m_asked m = Some (0, 2, 0, (5, None)) /\ v_cursor (fst (xview (m_w m))) fixed_size = CSome 4 0.
+Proof. vm_compute. repeat split; reflexivity. Qed.
 End X.
